@@ -316,5 +316,5 @@ func TestC19_Random(t *testing.T) {
 	rec := evid.New("C19", "c19_random", "rapid: histories of 1..40 operations over two handles on one bytes.Buffer (the buffer itself and the transport from NewBufferTransport / NewDefaultTransport): Write/Read of 0..10000 bytes through either handle, Reset, Close, Open, Flush, IsOpen, plus Register/unregister(nil)/call of the three callbacks with identity-checked arguments; model = byte queue + registration flags; after every step RemainingBytes == buffer Len == model; generic transports over objects with ReadableLen of any int (negative, 0, positive, extremes) or without it; non-trivial = both handles used and >= 1 Reset/Close")
 	defer rec.Flush()
 	rec.Assume("callback registrations are process globals; the check clears them first and runs single-threaded")
-	runRapid(t, rec, "c19_bridge", evid.Pick(40000, 100000), genBridgeCase, checkBridge)
+	runRapid(t, rec, "c19_bridge", evid.Pick(40000, 1000000), genBridgeCase, checkBridge)
 }
